@@ -5,8 +5,11 @@ S=/verif/seeded/$1; P=$2; T=${3:-quick}
 [ -f "$S/patch.diff" ] || { echo "no $S/patch.diff"; exit 3; }
 if [ -n "$(git -C /repo status --porcelain --untracked-files=no)" ]; then echo "/repo not clean"; exit 3; fi
 git -C /repo apply "$S/patch.diff" || { echo "patch does not apply"; exit 3; }
+# the evidence file describes the unchanged tree: keep it across this run on a changed one
+[ -f /verif/evidence/$P.json ] && cp /verif/evidence/$P.json /tmp/seedtest.$$.ev
 cd /verif && ./vcheck $P --tier $T > /tmp/seedtest.$$.log 2>&1; rc=$?
 git -C /repo checkout -- . 
+[ -f /tmp/seedtest.$$.ev ] && mv /tmp/seedtest.$$.ev /verif/evidence/$P.json
 grep -c "^VIOLATION" /tmp/seedtest.$$.log | sed "s/^/violations: /"
 grep -A2 "^VIOLATION" /tmp/seedtest.$$.log | head -${LINES_SHOWN:-14}
 tail -1 /tmp/seedtest.$$.log
